@@ -31,7 +31,7 @@ RULE = ('states = distinct (state digest, argument objects) values reached by ca
 ASSUMPTIONS = ['the GIL: scheduling points are line/call events, not bytecodes', 'hash seeds are a bounded enumeration, backed by explicit control of set iteration order']
 WORKER = os.path.join(core.HERE, 'mc', 'c11_worker.py')
 CALL_NAMES = ['rename+L1', 'typeparam+L1', 'all+G1', 'rename+G1', 'typeparam+G1', 'ann+RA', 'ann-default', 'hints', 'hints+RA', 'fstring', 'hoist', 'hoist2', 'fold',
-              'fold2', 'deep', 'awslambda', 'syntaxerror', 'midfail', 'rename+str']
+              'fold2', 'deep', 'awslambda', 'syntaxerror', 'midfail', 'rename+str', 'shebang', 'shebang+hugeint', 'hugehex', 'bytes-latin1']
 
 
 def env(seed='0'):
@@ -59,9 +59,9 @@ def tasks(tier):
     t = [('fresh',)]
     nh = 64 if tier == 'quick' else 256
     t += [('histories', depth, i, nh) for i in range(nh)]
-    t += [('setorder', i, 4) for i in range(4)]
+    t += [('setorder', i, 16) for i in range(16)]
     ns = 16 if tier == 'quick' else 64
-    t += [('seeds', s) for s in range(ns)] + ([('seeds', 'random')] if tier == 'thorough' else [])
+    t += [('seeds', s, tier) for s in range(ns)] + ([('seeds', 'random', tier)] if tier == 'thorough' else [])
     t += [('sched', tier, i, 32) for i in range(32)]
     return t
 
@@ -159,9 +159,12 @@ SETORDER_PROGRAMS = [
 
 
 def setorder_cases():
-    from mc.gen import feat
+    from mc.gen import feat, fstr
     for i, src in enumerate(SETORDER_PROGRAMS):
         yield 'setorder:%d' % i, src
+    for label, src in fstr.cases('quick'):
+        if ':-:-:' in label:        # conversions and the debug flag do not add candidates; the value / spec / outer quote product does
+            yield label, src
     for desc, src in feat.programs('quick'):
         if '+' not in desc:
             yield desc, src
@@ -180,7 +183,10 @@ def check_setorder(part, nparts, res):
     for i, (label, src) in enumerate(setorder_cases()):
         if i % nparts != part:
             continue
-        for kw in ({}, {'rename_globals': True}, {'rename_globals': True, 'preserve_globals': ['alpha_value', 'public_one'], 'preserve_locals': ['first_value', 'local_value']}):
+        kws = ({}, {'rename_globals': True}, {'rename_globals': True, 'preserve_globals': ['alpha_value', 'public_one'], 'preserve_locals': ['first_value', 'local_value']})
+        if label.startswith('fstr:'):
+            kws = kws[:1]
+        for kw in kws:
             try:
                 base = __import__('python_minifier').minify(src, **kw)
             except Exception as e:
@@ -366,7 +372,7 @@ def verify(results, idxs, expected, res, case, preempted):
 
 # ---- tasks ---------------------------------------------------------------------------------------------------------------------------------------
 
-CORE_CALLS = ['rename+L1', 'typeparam+L1', 'all+G1', 'ann+RA', 'ann-default', 'hints', 'midfail', 'hoist2', 'fold2']
+CORE_CALLS = ['rename+L1', 'typeparam+L1', 'all+G1', 'ann+RA', 'ann-default', 'hints', 'midfail', 'hoist2', 'fold2', 'shebang+hugeint', 'hugehex']
 
 
 def histories(depth, tier='thorough'):
@@ -395,10 +401,7 @@ def run_task(task):
         check_setorder(part, nparts, res)
     elif kind == 'seeds':
         seed = task[1]
-        p = subprocess.run([sys.executable, WORKER, 'seeds', core.HERE], env=env(seed), stdout=subprocess.PIPE, stderr=subprocess.PIPE)
-        if p.returncode != 0:
-            raise core.HarnessError('seed worker failed: %s' % p.stderr.decode()[-1500:])
-        out = json.loads(p.stdout.decode())
+        out = run_seed_worker(seed, task[2] if len(task) > 2 else 'quick')
         res.notes['seed:%s' % seed] = hashlib.sha256(json.dumps(out, sort_keys=True).encode()).hexdigest()[:16]
         res.sets.setdefault('seed_outputs', set()).add((str(seed), json.dumps(out, sort_keys=True)))
         res.count('evaluations', len(out))
@@ -411,6 +414,14 @@ def run_task(task):
     return res
 
 
+def run_seed_worker(seed, tier, only=None):
+    cmd = [sys.executable, WORKER, 'seeds', core.HERE, tier] + ([','.join(only)] if only else [])
+    p = subprocess.run(cmd, env=env(seed), stdout=subprocess.PIPE, stderr=subprocess.PIPE)
+    if p.returncode != 0:
+        raise core.HarnessError('seed worker failed: %s' % p.stderr.decode()[-1500:])
+    return json.loads(p.stdout.decode())
+
+
 def finish(total, tier):
     outs = total.sets.pop('seed_outputs', set())
     by_seed = dict(outs)
@@ -421,7 +432,8 @@ def finish(total, tier):
             o = json.loads(o)
             diff = [k for k in b if b[k] != o.get(k)]
             if diff:
-                total.violation('output-depends-on-hash-seed', {'seed': seed, 'programs': diff[:5]}, 'PYTHONHASHSEED=%s changes the output of %s' % (seed, diff[:5]))
+                total.violation('output-depends-on-hash-seed', {'seed': seed, 'programs': diff[:5], 'tier': tier},
+                                'PYTHONHASHSEED=%s changes the output of %s (groups such as fstr:12 are index ranges of mc/gen enumerators)' % (seed, diff[:5]))
             else:
                 total.counters['traces_validated_against_impl'] = total.counters.get('traces_validated_against_impl', 0) + len(o)
     for k in [k for k in total.notes if k.startswith('seed:')]:
@@ -448,6 +460,12 @@ def replay(case):
             return {'signature': 'thread-path-depends-on-schedule:program%d' % case['threads'][0], 'detail': repr(out[:1] + out[2:])}
         verify(out[1], case['threads'], expected, res, case, True)
     elif 'seed' in case:
+        groups = [k for k in case['programs'] if '|' not in k]
+        a = run_seed_worker('0', case.get('tier', 'quick'), groups or ['none:0'])
+        b = run_seed_worker(case['seed'], case.get('tier', 'quick'), groups or ['none:0'])
+        diff = [k for k in case['programs'] if a.get(k) != b.get(k)]
+        if diff:
+            return {'signature': 'output-depends-on-hash-seed', 'detail': 'PYTHONHASHSEED=%s changes the output of %s' % (case['seed'], diff)}
         return None
     for v in res.violations:
         return {'signature': v['signature'], 'detail': v['detail']}
